@@ -70,9 +70,15 @@ class SymOps:
         return Fraction(float(np.float32(x)))      # the code under test computes in float32
 
     def is_int(self, x):
+        """x is an integer.  Stated with explicit witnesses: x equals one of `int_candidates` (integer terms supplied by the
+        harness, e.g. the quotient of the implementation's own remainder, +-1) — this implies "exists n", and z3 decides it,
+        whereas `x == ToReal(ToInt(x))` over unbounded reals is beyond its integer reasoning (measured: unknown)."""
         import z3
         x = self.o.zf(x)
-        return x == z3.ToReal(z3.ToInt(x))
+        cands = [z3.IntVal(0)]
+        for k in getattr(self, "int_candidates", []):
+            cands += [k, k - 1, k + 1]
+        return z3.Or([x == z3.ToReal(n) for n in cands])
 
 
 class Num:
@@ -149,7 +155,7 @@ class P:
             setattr(self, k, v if isinstance(v, (Num, list, tuple)) else Num(o.const(v), o))
 
     def num(self, x):
-        return x if isinstance(x, Num) else Num(self.o.const(x), self.o)
+        return x if isinstance(x, Num) else Num(x if _isterm(x) else self.o.const(x), self.o)
 
 
 def nums(o, xs):
